@@ -16,15 +16,16 @@ type PlanC12 struct {
 	TLS           bool      `json:"tls"`
 	Reverse       bool      `json:"reverse"` // the accepted (server) end sends
 	Envs          []EnvSpec `json:"envs"`
-	Faults        FaultSpec `json:"faults"`          // on the data direction
-	Back          FaultSpec `json:"back"`            // on the opposite direction (matters under TLS)
-	ReaderPauseMs int       `json:"reader_pause_ms"` // receiver starts this late
-	SendCtxMs     int       `json:"send_ctx_ms"`     // per-send context deadline, 0 = none
-	RecvCtxMs     int       `json:"recv_ctx_ms"`     // per-receive context deadline, 0 = none
-	RecvRetry     int       `json:"recv_retry"`      // how often the receiver calls Receive again after a receive context expired
-	SendRetry     int       `json:"send_retry"`      // how often the sender goes on with the next envelope after a Send whose context ended
-	Trace         bool      `json:"trace"`           // both transports are configured with a TraceWriter
-	SendGapMs     int       `json:"send_gap_ms"`     // pause between sends
+	Faults        FaultSpec `json:"faults"`               // on the data direction
+	Back          FaultSpec `json:"back"`                 // on the opposite direction (matters under TLS)
+	ReaderPauseMs int       `json:"reader_pause_ms"`      // receiver starts this late
+	SendCtxMs     int       `json:"send_ctx_ms"`          // per-send context deadline, 0 = none
+	RecvCtxMs     int       `json:"recv_ctx_ms"`          // per-receive context deadline, 0 = none
+	RecvRetry     int       `json:"recv_retry"`           // how often the receiver calls Receive again after a receive context expired
+	SendRetry     int       `json:"send_retry"`           // how often the sender goes on with the next envelope after a Send whose context ended
+	Trace         bool      `json:"trace"`                // both transports are configured with a TraceWriter
+	ReadLimit     int       `json:"read_limit,omitempty"` // configured on both transports (0 = default 8 MiB); every envelope of the run is smaller than it
+	SendGapMs     int       `json:"send_gap_ms"`          // pause between sends
 	Family        string    `json:"family"`
 }
 
@@ -82,6 +83,19 @@ func genC12(t *simrt.Tape, tier string) interface{} {
 		}
 	}
 	p.Trace = t.Draw(6) == 0
+	if t.Draw(4) == 0 {
+		// a small read limit that no single envelope reaches, but the stream as a whole exceeds many times
+		big := 0
+		for _, e := range p.Envs {
+			if e.Size > big {
+				big = e.Size
+			}
+		}
+		p.ReadLimit = 2*big + 1200
+		for len(p.Envs) < 12 {
+			p.Envs = append(p.Envs, GenEnvSpec(t, big+1))
+		}
+	}
 	// keep the link's throughput within what a run's simulated-time budget can carry
 	for _, f := range []*FaultSpec{&p.Faults, &p.Back} {
 		if f.Capacity > 0 && f.Capacity < 64 && total/f.Capacity > 400 {
@@ -247,6 +261,18 @@ func runC12(w *World, pi interface{}) {
 	cliCfg, srvCfg := &lime.TCPConfig{TLSConfig: cliTLS}, &lime.TCPConfig{TLSConfig: srvTLS}
 	if p.Trace {
 		cliCfg.TraceWriter, srvCfg.TraceWriter = newDiscardTrace(), newDiscardTrace()
+	}
+	if p.ReadLimit > 0 {
+		maxLen := 0
+		for _, e := range envs {
+			if n := EncodedLen(e); n > maxLen {
+				maxLen = n
+			}
+		}
+		if p.ReadLimit < maxLen+64 {
+			p.ReadLimit = maxLen + 64 // every envelope stays within the limit
+		}
+		cliCfg.ReadLimit, srvCfg.ReadLimit = int64(p.ReadLimit), int64(p.ReadLimit)
 	}
 	pair, err := TCPPair(w, 7000, cliCfg, srvCfg, faults)
 	if err != nil {
@@ -424,7 +450,7 @@ func init() {
 		},
 		Run:    runC12,
 		MaxSim: 4 * time.Hour,
-		Rule: "plans = (envelope stream from the rich generator, TLS on/off, direction, per-direction fault plan: fragmentation mode, latency list, send-buffer capacity, stalls, cut offset+kind, reader pause, send/receive context deadlines, a polling receiver that calls Receive again after a receive context expired, a sender that goes on with the next envelope after a Send whose context ended, transports with a TraceWriter); " +
+		Rule: "plans = (envelope stream from the rich generator, TLS on/off, direction, per-direction fault plan: fragmentation mode, latency list, send-buffer capacity, stalls, cut offset+kind, reader pause, send/receive context deadlines, a polling receiver that calls Receive again after a receive context expired, a sender that goes on with the next envelope after a Send whose context ended, transports with a TraceWriter, a small configured read limit that every envelope respects but the stream exceeds many times); " +
 			"systematic families (every split point, pairs of split points, every cut offset x FIN/RST, every short-write length with a write timeout, every coalescing boundary, stalls around the 5 s poll, a stall longer than the receive context at every offset of a stream with an envelope-shaped JSON payload followed by Receive again) are enumerated first, then random plans; " +
 			"a run is non-trivial when both real transports connected (and upgraded to TLS when asked) and at least one Send was attempted; distinct = distinct (plan JSON, event-log hash) pairs",
 	})
